@@ -57,6 +57,25 @@ func (p *Prog) copySources(typ, field string) []ssa.Value {
 			}
 		}
 	}
+	// the object is filled while it is still a local and stored into the field afterwards
+	// (r := new(T); copy(r.Bytes()[:], src); x.field = r)
+	for _, st := range p.Stores(typ, field) {
+		al, ok := unspill(st.Val).(*ssa.Alloc)
+		if !ok {
+			continue
+		}
+		for _, cs := range p.Sites("builtin:copy") {
+			if cs.Caller != st.Fn {
+				continue
+			}
+			args := cs.Instr.Common().Args
+			for _, l := range p.Backing(args[0]) {
+				if (l.Kind == 'v' || l.Kind == 'a') && l.V == ssa.Value(al) {
+					out = append(out, args[1])
+				}
+			}
+		}
+	}
 	// x.field = [N]byte(src): the whole array assigned from a slice
 	for _, st := range p.Stores(typ, field) {
 		if src := arrayConvSource(st.Val); src != unspill(st.Val) {
@@ -362,9 +381,22 @@ func c02MacKey(c *Ctx, p *Prog, typ, idField string, viaPublic bool) {
 	}
 	first := p.Slice(ap.Common().Args[0], SliceOpt{NoMem: true})
 	second := p.Slice(ap.Common().Args[1], SliceOpt{NoMem: true})
+	// the field's value, read back from the object or taken straight from the constructor parameter that is
+	// stored into that field (composite-literal style)
+	fieldParam := map[string]ssa.Value{}
+	for _, f := range []string{idField, "nodeID"} {
+		for _, fs := range p.Stores(typ, f) {
+			if q, isPar := unspill(fs.Val).(*ssa.Parameter); isPar && fs.Fn == s.Fn {
+				fieldParam[f] = q
+			}
+		}
+	}
 	has := func(r *SliceRes, field string) bool {
 		for v := range r.Seen {
 			if isFieldLoad(v, typ, field) {
+				return true
+			}
+			if q := fieldParam[field]; q != nil && v == q {
 				return true
 			}
 		}
